@@ -4,16 +4,24 @@
    on a program of behaviour `tool`; `join` is the outcome of join(), `out` is what the
    external program emitted (its own copy: headers as digit sequences, rows run-length
    encoded; <<>> if the run did not succeed) and the rest is what the wrapper handed out
-   (leaves: <<>> if the wrapper has no tree getter, else <<leaf numbers>>).  TLC recomputes the
-   outcome with AppLifecycleOps.PlainRun and the results with MsaResults.Results. *)
-EXTENDS MsaResults, AppLifecycleOps, Json, IOUtils
+   (leaves: <<>> if the wrapper has no tree getter, else <<leaf numbers>>).  wkind = the wrapper
+   class, setters = the option setters called before start (any sequence, repetitions
+   included), given_tree = the clades of the tree handed to set_guide_tree, extra = what the
+   class-specific result getters handed out (shape of MsaOptions.Extras), guards = outcome of
+   the class-specific getters in CREATED and of the class-specific setters in JOINED ("none" =
+   the class has none / not tried).  TLC recomputes the outcome with AppLifecycleOps.PlainRun,
+   the results with MsaResults.Results and MsaOptions.Extras. *)
+EXTENDS MsaOptions, AppLifecycleOps, Json, IOUtils
 
 Tr == JsonDeserialize(IOEnv.TRACE_FILE)
 
 VARIABLES tid, l
 tvars == <<tid, l>>
 
-NoFlags == <<FALSE, FALSE, FALSE, FALSE, FALSE>>
+NoFlags == <<FALSE, FALSE, FALSE, FALSE, FALSE, FALSE, FALSE>>
+GuardsOk(e) ==
+  /\ e.guards[1] \in {"none", Step(CreatedState(DefaultTool), "get_dist").oc}
+  /\ e.guards[2] \in {"none", Step(Core(PlainRun(DefaultTool)[2]), "setter").oc}
 Judge(e) ==
   LET j == PlainRun(e.tool)[2] IN
   IF e.join # j.oc
@@ -22,13 +30,18 @@ Judge(e) ==
   ELSE IF ~Dom_Complete(e.out, e.n)
     THEN PrintT(<<"MISMATCH", tid, l + 1, NoFlags, [oc |-> "NOTDOMAIN", app |-> j.app]>>)
     ELSE LET r == Results(e.out, e.n)
+             x == Extras(e.wkind, e.setters, e.n, e.given_tree)
              flags == <<r.rows = e.rows, r.order = e.order,
                         e.leaves = <<>> \/ e.leaves = <<r.leaves>>,
-                        r.sequences = e.sequences, FaithfulTo(r, e.out, e.lens)>>
+                        r.sequences = e.sequences, FaithfulTo(r, e.out, e.lens),
+                        /\ x.dist.k = e.extra.dist.k /\ x.dist.m = e.extra.dist.m
+                        /\ x.tree_default = e.extra.tree_default /\ x.tree_kmer = e.extra.tree_kmer
+                        /\ x.tree_identity = e.extra.tree_identity,
+                        GuardsOk(e)>>
          IN IF \A i \in 1..Len(flags) : flags[i] THEN TRUE
             ELSE PrintT(<<"MISMATCH", tid, l + 1, flags,
                           [oc |-> "ok", app |-> j.app, rows |-> r.rows, order |-> r.order,
-                           leaves |-> r.leaves, sequences |-> r.sequences]>>)
+                           leaves |-> r.leaves, sequences |-> r.sequences, extra |-> x]>>)
 
 Init == tid \in 1..Len(Tr) /\ l = 0
 Next ==
